@@ -118,6 +118,7 @@ func newGen(w *World, fn *ssa.Function, fc *FuncContract) *Gen {
 	g.decl("(declare-fun strlen (Int) Int)")
 	g.decl("(declare-fun bytesval ((Array Int (Array Int Int)) Int Int Int) Int)")
 	g.decl("(declare-fun implements (Int Int) Bool)")
+	g.extraAxioms = append(g.extraAxioms, "(forall ((e (Array Int (Array Int Int))) (o Int) (f Int)) (! (= (bytesval e o f 0) 0) :pattern ((bytesval e o f 0))))")
 	return g
 }
 
@@ -431,13 +432,16 @@ func (g *Gen) facts(st *State, v *Value) {
 			g.rangeDone[key] = true
 			// slice: obj off len cap are leaves i-2..i+1
 			obj, off, ln, cp := v.L[i-2], v.L[i-1], v.L[i], v.L[i+1]
-			g.addCons(fmt.Sprintf("(and (<= 0 %s) (<= 0 %s) (<= %s %s) (<= %s 9223372036854775807) (=> (= %s 0) (= %s 0)))", off, ln, ln, cp, cp, obj, cp))
+			g.addCons(fmt.Sprintf("(and (<= 0 %s) (<= 0 %s) (<= %s %s) (<= (+ %s %s) %s) (=> (= %s 0) (= %s 0)))", off, ln, ln, cp, off, cp, maxSliceLen, obj, cp))
 		case "tag":
 			g.rangeDone[key] = true
 			g.addCons(fmt.Sprintf("(and (<= 0 %s) (=> (= %s 0) (= %s 0)))", t, t, v.L[i+1]))
 		}
 	}
 }
+
+// maxSliceLen: no slice has 2^50 or more elements (assumption about the address space, listed).
+const maxSliceLen = "1125899906842624"
 
 var literalRe = regexp.MustCompile(`^(\(- \d+\)|\d+|true|false)$`)
 
